@@ -560,6 +560,11 @@ impl PendingEntryList {
         let start = start.unwrap_or(StreamId::min());
         let end = end.unwrap_or(StreamId::max());
         
+        // BTreeMap::range panics on a range given the wrong way round (XPENDING s g 5-0 1-0 10)
+        if start > end {
+            return Vec::new();
+        }
+        
         let iter: Box<dyn Iterator<Item = &PendingEntry>> = Box::new(
             self.entries_by_id
                 .range(start..=end)
